@@ -1,3 +1,3 @@
 import SupervisorModel.Basic.DriverKit
 import SupervisorModel.Model.RereadIO
-def main : IO Unit := Sv.driverMain [("reread", Sv.Reread.runCase)]
+def main : IO Unit := Sv.driverMain [("reread", Sv.Reread.runCase), ("history", Sv.Reread.runHistory)]
